@@ -60,6 +60,9 @@ type poolCfg struct {
 	Method  string      `json:"method"`
 	Clients [][]reqSpec `json:"clients"`
 	Phase2  bool        `json:"phase2"` // conservation + probe phase after quiescence
+	// StopOnErr: call the method with its error-policy flag false (stop on error); NM: the N, M split
+	StopOnErr bool   `json:"stop_on_err,omitempty"`
+	NM        [2]int `json:"nm,omitempty"`
 }
 
 type PoolReq struct {
@@ -94,6 +97,7 @@ type poolState struct {
 	notes    []string
 	newErr   error
 	apiCache map[string]interface{}
+	cfg      poolCfg
 }
 
 func (st *poolState) owner() *reqRec {
@@ -229,7 +233,10 @@ func (st *poolState) issue(gp *engine.GenginePool, m *gx.PoolMethod, id int64, s
 			data["other"] = &PoolOther{V: id + 1000}
 		}
 	}
-	p := gx.PoolCallParams{B: true, N: 1, M: 2, Names: []string{"r1", "r0", "r2"}, Dag: [][]string{{"r0"}, {"r1", "r2"}}}
+	p := gx.PoolCallParams{B: !st.cfg.StopOnErr, N: 1, M: 2, Names: []string{"r1", "r0", "r2"}, Dag: [][]string{{"r0"}, {"r1", "r2"}}}
+	if st.cfg.NM[0] > 0 {
+		p.N, p.M = st.cfg.NM[0], st.cfg.NM[1]
+	}
 	rec.err, rec.res, rec.pan = gx.PoolCallGuarded(m, gp, data, p)
 	rec.resCopy = gx.CopyResult(rec.res)
 	rec.respID = resp.Id
@@ -253,7 +260,7 @@ func poolScenario(cfg poolCfg) *hx.Scenario {
 		Name: "pool",
 		Cfg:  cfg,
 		Opts: vsched.Options{Horizon: 20000},
-		New:  func() interface{} { return &poolState{log: &gx.Log{}, cur: map[string]*reqRec{}} },
+		New:  func() interface{} { return &poolState{log: &gx.Log{}, cur: map[string]*reqRec{}, cfg: cfg} },
 		Body: func(s interface{}) {
 			st := s.(*poolState)
 			activePool = st
